@@ -16,7 +16,7 @@ ctx = Ctx("DEV", "quick", F, th)
 p = os.path.join(os.path.dirname(os.path.dirname(os.path.abspath(__file__))), "tables", "pins.json")
 table = json.load(open(p))
 for q, e in sorted(table.items()):
-    fs = [g for g in F.by_qname.get(q, []) if not g.in_testonly()]
+    fs = pins.resolve(ctx, q)
     if len(fs) != 1:
         h = getattr(F, "helpers", {}).get(q)
         fs = [h] if h is not None else fs
